@@ -436,7 +436,7 @@ func init() {
 	const docUnits = 48
 	const numChunk = 64
 	glen := func(c *fw.Ctx) int { return c.Pick(3, 4) }
-	fw.Register(&fw.Prop{
+	register(&fw.Prop{
 		ID: "C04",
 		Rule: "all JSON trees of depth <= 2 / width <= 2 over 12 scalars, all depth <= 4 / width 1 trees, a structured sweep of doubles, each through json($) and through -o unmodified; narrow documents through 21 sub-document selectors with -o, and changed by 13 mutating programs and left alone by 3 programs that have only BEGIN / END rules (push / pop / popfirst, through a callee, an alias, per element, in ENDFILE, stores that create and pad; most without any assignment) with -o compared to the model's root; " +
 			"acyclic documents nested 200 ... 4098 deep through json($) and -o; 7 programs that call json() on a container, change it through push / pop / popfirst / a callee without any assignment and call json() again; the real binary with -o - / -o FILE (over an older file, new) on 6 documents (two full of % directives, escapes and separators) whose element k receives one of 6 inexpressible values: non-zero exit, a diagnostic, nothing on stdout and no fragment in the file; " +
